@@ -290,7 +290,7 @@ def run_case(case):
         elif (r["solved"] != base["solved"] or (r["obj"] != base["obj"] and not (isinstance(r["obj"], (int, float)) and isinstance(base["obj"], (int, float)) and models.num_close(r["obj"], base["obj"])))) \
                 and presolve_off_agrees(inst, r["s"], cls, base):
             # classified: with HiGHS' presolve switched off this setting agrees with the baseline => solver (trusted base) defect, keyed as such
-            viol.append({"sig": f"C05/options-change-result/{cls}/solver-presolve-defect", "msg": f"all-off: solved={base['solved']} obj={base['obj']}; with {on}: solved={r['solved']} obj={r['obj']}, but the same setting with presolve='off' agrees with the baseline; {desc}"})
+            viol.append({"sig": f"C05/options-change-result/solver-presolve-defect/{cls}", "msg": f"all-off: solved={base['solved']} obj={base['obj']}; with {on}: solved={r['solved']} obj={r['obj']}, but the same setting with presolve='off' agrees with the baseline; {desc}"})
         elif r["solved"] != base["solved"]:
             viol.append({"sig": f"C05/solvability-depends-on-options/{cls}/" + "+".join(on)[:150], "msg": f"all-off: solved={base['solved']} obj={base['obj']}; with {on}: solved={r['solved']} obj={r['obj']}; {desc}"})
         elif r["obj"] != base["obj"] and not (isinstance(r["obj"], (int, float)) and isinstance(base["obj"], (int, float)) and models.num_close(r["obj"], base["obj"])):
